@@ -230,3 +230,168 @@ def rt_fit_to_data(table, max_epochs, max_patience, return_best):
     if problems:
         return dict(what="; ".join(problems), case=dict(val_losses=[float(t) for t in table], max_epochs=max_epochs, max_patience=max_patience, return_best=return_best))
     return None
+
+
+# --------------------------------------------------------------------------------------
+# elementwise leaf bijections: run-time contract at one point (float64)
+def _build_leaf(cname, prm):
+    import equinox as eqx
+    import flowjax.bijections as B
+
+    g = lambda k, d=None: (fnum(prm[k]) if k in prm and prm[k] is not None else d)  # noqa: E731
+    if cname == "Affine":
+        b = B.Affine(jnp.asarray(g("loc", 0.0)))
+        return eqx.tree_at(lambda a: a.scale, b, jnp.asarray(g("scale", 1.0)))
+    if cname == "Loc":
+        return B.Loc(jnp.asarray(g("loc", 0.0)))
+    if cname == "Scale":
+        b = B.Scale(jnp.asarray(1.0))
+        return eqx.tree_at(lambda a: a.scale, b, jnp.asarray(g("scale", 1.0)))
+    if cname == "Exp":
+        return B.Exp()
+    if cname == "SoftPlus":
+        return B.SoftPlus()
+    if cname == "Tanh":
+        return B.Tanh()
+    if cname == "Identity":
+        return B.Identity()
+    if cname == "LeakyTanh":
+        return B.LeakyTanh(g("max_val", 3.0))
+    raise KeyError(cname)
+
+
+def _ref_leaf(cname, prm, x):
+    """independent float64 NumPy reference written from the documentation (C07)"""
+    g = lambda k, d=None: (fnum(prm[k]) if k in prm and prm[k] is not None else d)  # noqa: E731
+    if cname == "Affine":
+        return g("scale", 1.0) * x + g("loc", 0.0)
+    if cname == "Loc":
+        return x + g("loc", 0.0)
+    if cname == "Scale":
+        return g("scale", 1.0) * x
+    if cname == "Exp":
+        return math.exp(x)
+    if cname == "SoftPlus":
+        return math.log1p(math.exp(-abs(x))) + max(x, 0.0)
+    if cname == "Tanh":
+        return math.tanh(x)
+    if cname == "Identity":
+        return x
+    if cname == "LeakyTanh":
+        m = g("max_val", 3.0)
+        if abs(x) < m:
+            return math.tanh(x)
+        s = 1.0 if x > 0 else -1.0
+        return s * math.tanh(m) + (1 - math.tanh(m) ** 2) * (x - s * m)
+    raise KeyError(cname)
+
+
+_DOM = {"default": lambda v: True}
+_COD = {"Exp": lambda v: v > 0, "SoftPlus": lambda v: v > 0, "Tanh": lambda v: -1 < v < 1}
+
+
+def _close(a, b, scale=1.0, tol=1e-9):
+    a, b = float(a), float(b)
+    if math.isnan(a) or math.isnan(b):
+        return False
+    if math.isinf(a) or math.isinf(b):
+        return a == b
+    return abs(a - b) <= tol * max(1.0, abs(a), abs(b), scale)
+
+
+def rt_leaf(prop, cname, prm, x=None, y=None):
+    """returns list of failure strings for the clauses of `prop` at input x (domain side) / y (codomain side)"""
+    b = _build_leaf(cname, prm)
+    fails = []
+    cod = _COD.get(cname, lambda v: True)
+    isf = lambda v: bool(jnp.all(jnp.isfinite(v)))  # noqa: E731
+    if x is not None and abs(x) < 1e300:
+        xa = jnp.asarray(float(x))
+        t = b.transform(xa)
+        t2, ld = b.transform_and_log_det(xa)
+        dfwd = jax.jacfwd(b.transform)(xa)
+        cond = max(1.0, abs(float(dfwd)), 1.0 / max(abs(float(dfwd)), 1e-300)) if isf(dfwd) else 1.0
+        if prop == "C07" and isf(t):
+            r = _ref_leaf(cname, prm, float(x))
+            if not _close(t, r):
+                fails.append(f"transform({x}) = {float(t)!r}, documented function gives {r!r}")
+        if prop == "C01" and isf(t) and cod(float(t)):
+            back = b.inverse(t)
+            if not _close(back, x, cond, 1e-7):
+                fails.append(f"inverse(transform({x})) = {float(back)!r}")
+            if not _close(t2, t):
+                fails.append(f"transform_and_log_det({x})[0] = {float(t2)!r} != transform = {float(t)!r}")
+        if prop == "C02" and isf(t):
+            if jnp.ndim(ld) != 0:
+                fails.append(f"forward log-det has shape {jnp.shape(ld)}")
+            elif isf(dfwd) and float(jnp.abs(dfwd)) > 1e-290 and not _close(ld, jnp.log(jnp.abs(dfwd)), tol=1e-7):
+                fails.append(f"forward log-det at x={x} is {float(ld)!r}; log|d transform/dx| by autodiff is {float(jnp.log(jnp.abs(dfwd)))!r}")
+        if prop == "C18" and isf(t) and isf(ld):
+            for nm, fn in (("transform", b.transform), ("forward log-det", lambda v: b.transform_and_log_det(v)[1])):
+                gval = jax.grad(lambda v: jnp.sum(fn(v)))(xa)
+                if not isf(gval):
+                    fails.append(f"d {nm}/dx at x={x} is {float(gval)!r} although the value is finite")
+    if y is not None and abs(y) < 1e300 and cod(float(y)):
+        ya = jnp.asarray(float(y))
+        iv = b.inverse(ya)
+        iv2, ldi = b.inverse_and_log_det(ya)
+        if prop == "C01" and isf(iv):
+            fw = b.transform(iv)
+            dinv = jax.jacfwd(b.inverse)(ya)
+            cond = max(1.0, abs(float(dinv)), 1.0 / max(abs(float(dinv)), 1e-300)) if isf(dinv) else 1.0
+            if not _close(fw, y, cond, 1e-7):
+                fails.append(f"transform(inverse({y})) = {float(fw)!r}")
+            if not _close(iv2, iv):
+                fails.append(f"inverse_and_log_det({y})[0] = {float(iv2)!r} != inverse = {float(iv)!r}")
+        if prop == "C02" and isf(iv):
+            _, ldf = b.transform_and_log_det(iv)
+            if isf(ldf) and not _close(ldi, -ldf, tol=1e-7):
+                fails.append(f"inverse log-det at y={y} is {float(ldi)!r}; minus the forward log-det at inverse(y)={float(iv)!r} is {float(-ldf)!r}")
+        if prop == "C18" and isf(iv) and isf(ldi):
+            for nm, fn in (("inverse", b.inverse), ("inverse log-det", lambda v: b.inverse_and_log_det(v)[1])):
+                gval = jax.grad(lambda v: jnp.sum(fn(v)))(ya)
+                if not isf(gval):
+                    fails.append(f"d {nm}/dy at y={y} is {float(gval)!r} although the value is finite")
+    return fails
+
+
+def leaf_grid_points(cname, prm):
+    m = fnum(prm.get("max_val", 3.0)) if cname == "LeakyTanh" else 1.0
+    base = [0.0, 1.0, -1.0, 0.5, -0.5, 0.3, -2.7, 1e-8, -1e-8, 10.0, -10.0, 1e4, -1e4, m, -m, math.tanh(m), -math.tanh(m)]
+    pts = set(base)
+    for v in list(base):
+        if v not in (1e4, -1e4):
+            pts.add(float(np.nextafter(v, np.inf)))
+            pts.add(float(np.nextafter(v, -np.inf)))
+    if cname == "LeakyTanh":
+        for v in (m * 1.2, -m * 1.2, (m + math.tanh(m)) / 2, -(m + math.tanh(m)) / 2, 0.999, -0.999, 1 + 1e-6, -1 - 1e-6):
+            pts.add(v)
+    return sorted(pts)
+
+
+LEAF_PARAM_GRID = {
+    "Affine": [dict(loc=0.3, scale=1.7), dict(loc=-2.0, scale=-0.4), dict(loc=0.0, scale=1e-3), dict(loc=5.0, scale=250.0)],
+    "Loc": [dict(loc=0.3), dict(loc=-7.5)],
+    "Scale": [dict(scale=1.7), dict(scale=-0.4), dict(scale=1e-3)],
+    "Exp": [dict()], "SoftPlus": [dict()], "Tanh": [dict()], "Identity": [dict()],
+    "LeakyTanh": [dict(max_val=3.0), dict(max_val=1.0), dict(max_val=0.5), dict(max_val=2.0)],
+}
+
+
+def rt_leaf_grid(prop, cname=None, first_only=False, count=None):
+    fails, n = [], 0
+    for cn, plist in LEAF_PARAM_GRID.items():
+        if cname and cn != cname:
+            continue
+        for prm in plist:
+            for v in leaf_grid_points(cn, prm):
+                if cn in ("Exp",) and abs(v) > 700:
+                    continue
+                n += 1
+                for f in rt_leaf(prop, cn, prm, x=v, y=v):
+                    fails.append(dict(what=f"{cn}({prm}): {f}", case=dict(cls=cn, params=prm, point=v)))
+                    if first_only:
+                        return fails
+    if count is not None:
+        count.append(n)
+    return fails
